@@ -141,7 +141,10 @@ Values(env, T0, d) ==
          LET cs == AllComps(T)
          IN UNION {{MkAlt(cs[i].n, x) : x \in Spread(Values(env, cs[i].t, d - 1), 8)} : i \in DOMAIN cs}
     [] T.k \in {"SEQOF", "SETOF"} ->
-         LET ev == IF d = 0 THEN <<>> ELSE SetSeq(Take(Values(env, T.t, d - 1), 6))
+         \* (elements of a CHOICE type: spread over its alternatives; other element types: the six smallest values)
+         LET ev == IF d = 0 THEN <<>>
+                   ELSE IF Resolve(env, T.t).k = "CHOICE" THEN SetSeq(Spread(Values(env, T.t, d - 1), 6))
+                   ELSE SetSeq(Take(Values(env, T.t, d - 1), 6))
              \* lists of leaf elements also at the lengths where a length / count field changes its form
              sizes == SizeSamples(T.size, 4)
                       \cup (IF T.k = "SEQOF" /\ T.size.op = "none" /\ Resolve(env, T.t).k \in {"BOOLEAN", "NULL", "ENUM"} THEN {127, 128, 129} ELSE {})
